@@ -21,12 +21,14 @@ TIERS = {
 
 
 # ------------------------------------------------------------------------------ hashing
-def hash_obj(o, canonical=False, _depth=0):
+def hash_obj(o, canonical=False, _depth=0, sortcols=False):
     import numpy as np
     import pandas as pd
     try:
         if isinstance(o, (pd.DataFrame, pd.Series)) and canonical:
             try:
+                if isinstance(o, pd.DataFrame) and sortcols:
+                    o = o[sorted(o.columns, key=repr)]
                 if isinstance(o, pd.DataFrame):
                     o2 = o.sort_values(list(o.columns), kind="stable") if len(o) and len(o.columns) else o
                 else:
@@ -40,7 +42,7 @@ def hash_obj(o, canonical=False, _depth=0):
             h.update(pickle.dumps(o, protocol=4))
             return h.hexdigest()
         if isinstance(o, (list, tuple)) and _depth < 4:
-            return "seq:" + hashlib.sha1("|".join(hash_obj(x, canonical, _depth + 1) for x in o).encode(), usedforsecurity=False).hexdigest()
+            return "seq:" + hashlib.sha1("|".join(hash_obj(x, canonical, _depth + 1, sortcols) for x in o).encode(), usedforsecurity=False).hexdigest()
         if isinstance(o, dict) and _depth < 4:
             return "dict:" + hashlib.sha1("|".join(repr(k) + "=" + hash_obj(v, canonical, _depth + 1) for k, v in sorted(o.items(), key=lambda kv: repr(kv[0]))).encode(), usedforsecurity=False).hexdigest()
         return hashlib.sha1(pickle.dumps(o, protocol=4), usedforsecurity=False).hexdigest()
@@ -164,6 +166,7 @@ def run_order(dsk, order, outkeys, num, canonical, srcs):
                        "out": num("external-state") if external else num(hash_obj(val, canonical))})
     srca = [num(hash_obj(s)) for s in srcs]
     result = num(hash_obj([[cache[k] for k in ks] for ks in outkeys], canonical))
+    run_order.last_cc = hash_obj([[cache[k] for k in ks] for ks in outkeys], True, 0, True)      # diagnostic: bag of rows, column order ignored
     return events, srcb, srca, result
 
 
@@ -251,6 +254,7 @@ def replay(case):
     # canonical run
     try:
         ev0, sb, sa, res0 = run_order(dsk, base, outkeys, num, canonical, srcs)
+        cc0 = run_order.last_cc
         ref = [[kid(e["key"]), e["out"]] for e in ev0]
         lines.append(mk("canonical", ev0, sb, sa, res0, ref, res0))
         ref_crashed = False
@@ -273,6 +277,7 @@ def replay(case):
             # task, so every execution gets a fresh one)
             ev, sb, sa, res = run_order(dsk, order, outkeys, num, canonical, srcs)
             ln = mk(label, ev, sb, sa, res, ref, res0)
+            ln["same_modulo_column_order"] = bool(run_order.last_cc == cc0)
             lines.append(ln)
         except Exception as ex:
             lines.append({"label": label, "crashed": True, "ref_crashed": False, "events": [], "ref": ref, "srcb": [], "srca": [], "result": -1, "ref_result": res0,
@@ -393,7 +398,7 @@ def run(tier="quick", seed=0, replay_path=None):
     chk.extra["tlc_generated_schedules"] = ntlc
     chk.tlc_runs.append({"run": "Sched -simulate on the dependency graph of each real task graph", "runs": ntlc_runs})
     chk.evaluations = len(lines)
-    slim = [{k: v for k, v in ln.items() if k not in ("label", "msg", "ntasks")} for ln in lines]
+    slim = [{k: v for k, v in ln.items() if k not in ("label", "msg", "ntasks", "same_modulo_column_order")} for ln in lines]
     cfg = tlc.cfg(init="Init", next="Next", postcondition="AllConsumed")
     results, rejects, _, _ = tlc.validate("SchedTrace", slim, cfg_text=cfg, chunk=120, parallel=10)
     for r in results:
@@ -405,7 +410,8 @@ def run(tier="quick", seed=0, replay_path=None):
             chk.note_nontrivial(common.case_hash([{k: v for k, v in c.items() if k not in ("tid", "tlc_orders", "threads")}, ln["label"]]))
         if ln["tid"] in rejects:
             prog = {k: v for k, v in c.items() if k not in ("tid", "tlc_orders")}
-            chk.fail(rejects[ln["tid"]], {"program": prog, "schedule": ln["label"], "kind": c["kind"], "ops": rel.ops_of(c["q"]) if "q" in c else [], "q": c.get("q", {"op": "none"})},
+            chk.fail(rejects[ln["tid"]], {"program": prog, "schedule": ln["label"], "kind": c["kind"], "ops": rel.ops_of(c["q"]) if "q" in c else [], "q": c.get("q", {"op": "none"}),
+                                          "same_modulo_column_order": bool(ln.get("same_modulo_column_order", False))},
                      {"msg": ln.get("msg", ""), "ntasks": ln["ntasks"]})
     chk.rule = ("programs = seeded sample of TLC-generated queries (QueryGen) + templates with a materialised intermediate shared by several consumers (15 consumer kinds, as one concat "
                 "graph and as a multi-output graph), consumers on source partitions, dx.repartition(pdf), random_split (int seed and RandomState instance), set_index, task/disk shuffles; "
